@@ -25,7 +25,7 @@ HEADER = (dt.COQ_HEADER + 'From FJ Require Import Model.Expr Model.Macro.\n'
           'Definition p0 := mkpos "" "" 0.\n')
 TAGS = {'unknown_macro': 1, 'depth': 2, 'dup_label': 3, 'rep_times': 4, 'pad_eval': 5, 'pad_nonpositive': 6,
         'pad_unaligned': 7, 'segment_eval': 8, 'segment_unaligned': 9, 'reserve_eval': 10, 'reserve_unaligned': 11,
-        'bad_label_swap': 12, 'rep_args': 13, 'eval_new': 14, 'pad_too_far': 17}
+        'bad_label_swap': 12, 'rep_args': 13, 'eval_new': 14, 'pad_too_far': 17, 'reserve_negative': 18}
 
 
 # ---- Python -> Coq --------------------------------------------------------------------------------------------------
